@@ -384,7 +384,7 @@ class Obligation:
             "name": self.name,
             "kind": self.kind,
             "status": self.status,
-            "detail": self.detail[:2000],
+            "detail": (self.detail or "")[:2000],
             "model": self.model,
             "secs": round(self.secs, 4),
             "solver": self.solver,
